@@ -223,14 +223,30 @@ func (h *RetryHandler) handleConnectionFailure(ctx context.Context, endpoint *do
 
 // removeFailedEndpoint removes the failed endpoint from the available list
 func (h *RetryHandler) removeFailedEndpoint(endpoints []*domain.Endpoint, failedEndpoint *domain.Endpoint) []*domain.Endpoint {
+	// Names are not guaranteed to be unique (nothing rejects two endpoints with the same or no
+	// name), so the failed endpoint is identified by what it is, not by what it is called:
+	// the very element the selector handed out, or failing that the same name and URL.
+	idx := -1
 	for i := 0; i < len(endpoints); i++ {
-		if endpoints[i].Name == failedEndpoint.Name {
-			// Remove element at index i by copying subsequent elements
-			copy(endpoints[i:], endpoints[i+1:])
-			return endpoints[:len(endpoints)-1]
+		if endpoints[i] == failedEndpoint {
+			idx = i
+			break
 		}
 	}
-	return endpoints
+	if idx < 0 {
+		for i := 0; i < len(endpoints); i++ {
+			if endpoints[i].Name == failedEndpoint.Name && endpoints[i].URLString == failedEndpoint.URLString {
+				idx = i
+				break
+			}
+		}
+	}
+	if idx < 0 {
+		return endpoints
+	}
+	// Remove element at index idx by copying subsequent elements
+	copy(endpoints[idx:], endpoints[idx+1:])
+	return endpoints[:len(endpoints)-1]
 }
 
 // buildFinalError constructs the appropriate error message for retry failure
